@@ -69,17 +69,10 @@ pub fn foreign_calls() {
     DIRTY.with(|d| d.set(true));
     COUNT.with(|c| c.set(c.get() + 1));
     let _ = guarded(|| {
-        // two groups formed and collected, the one in the first slot last
         let mut f: Sodg<3> = Sodg::empty(16);
         for v in 0..6 {
             f.add(v);
         }
-        f.bind(0, 1, lab(0));
-        f.bind(2, 3, lab(0));
-        f.put(1, &dat(0));
-        f.put(3, &dat(1));
-        let _ = f.data(3);
-        let _ = f.data(1);
         // ids handed out, a vertex with heap data read twice, texts of everything
         let a = f.next_id();
         f.add(a);
@@ -113,6 +106,21 @@ pub fn foreign_calls() {
         drop(r);
         let _ = Hex::from_str("31-32-33-34-35-36-37-38-39-3A-3B-3C");
         drop(h);
+    });
+    let _ = guarded(|| {
+        // LAST (no bind, no collection comes after it): two groups formed and collected on a foreign
+        // graph, the one in the first slot last
+        let mut f: Sodg<3> = Sodg::empty(16);
+        for v in 0..6 {
+            f.add(v);
+        }
+        f.bind(0, 1, lab(0));
+        f.bind(2, 3, lab(0));
+        f.put(1, &dat(0));
+        f.put(3, &dat(1));
+        let _ = f.data(3);
+        let _ = f.data(1);
+        let _ = f.next_id();
     });
 }
 
